@@ -191,12 +191,20 @@ func c19Outcome(res []any, err error) string {
 	return fmt.Sprintf("%d+%d/e%d", kept, nils, e)
 }
 
+// typed nil pointers are elements like any other (a non-nil interface value): never a gap
+var c19TypedNils = []any{(*int)(nil), (*string)(nil), (*float64)(nil), (*AStack)(nil)}
+
 func buildPattern(kind, p string, next func() any) (stackage.Stack, []any) {
 	s := NewStack(kind, 0)
 	var orig []any
+	tn := 0
 	for i := 0; i < len(p); i++ {
 		if p[i] == 'x' {
 			v := next()
+			if (i*7+len(p))%11 == 3 && tn < len(c19TypedNils) {
+				v = c19TypedNils[tn] // (each type at most once per stack, so positions stay identifiable)
+				tn++
+			}
 			s.Push(v)
 			orig = append(orig, v)
 		} else {
@@ -390,6 +398,11 @@ func c19GenNode(r *core.Rng, depth int, next func() any) *c19Node {
 	}
 	n := &c19Node{Pat: string(b), Kind: Kinds[r.Intn(5)]}
 	n.s = NewStack(n.Kind, 0)
+	if depth < 3 && r.Chance(1, 6) {
+		// a nested stack that carries an error from some earlier, unrelated call: that is its own affair
+		defer func() { n.s.SetErr(errPolicyRejects) }()
+		n.Opts += "stale-err "
+	}
 	if r.Chance(1, 3) {
 		n.s.SetForwardIndices(true)
 		n.Opts += "fwd "
@@ -544,6 +557,10 @@ func c19Run(c *core.Ctx, idx int) {
 			return
 		}
 		sigs := map[string]bool{}
+		if !strings.Contains(root.Pat, ".") && root.s.Err() != nil {
+			c.Violatef("defrag:spurious-err", root, "a gap-free root stack reports %v after Defrag (an error carried by a nested stack is the nested stack's)", root.s.Err())
+			return
+		}
 		c19Judge(c, root, root, "root", sigs)
 		c.Count("trees.nested")
 		if len(root.Kids) > 0 {
